@@ -24,6 +24,7 @@ import (
 	"os"
 	"sort"
 	"strings"
+	"testing/iotest"
 
 	"github.com/PuerkitoBio/goquery"
 	"github.com/internetarchive/Zeno/internal/pkg/archiver"
@@ -118,15 +119,39 @@ func newPageURL(c *Case, body string) (*models.URL, error) {
 	if err := preprocessor.NormalizeURL(u, nil); err != nil {
 		return nil, fmt.Errorf("page URL rejected: %v", err)
 	}
-	hdr := http.Header{}
-	if c.St.CT != "" {
-		hdr.Set("Content-Type", c.St.CT)
-	}
-	u.SetResponse(&http.Response{StatusCode: c.St.Status, Header: hdr, Body: io.NopCloser(strings.NewReader(body))})
+	u.SetResponse(pageResponse(c, body))
 	if err := archiver.ProcessBody(u, false, false, 1, htmlTmp); err != nil {
 		return nil, err
 	}
 	return u, nil
+}
+
+// pageResponse: the response of the page as the archiver would hand it to ProcessBody - headers as
+// generated, the body behind a reader of the generated kind (net/http returns the last bytes of an
+// identity-encoded body with a Content-Length TOGETHER with io.EOF: iotest.DataErrReader).
+func pageResponse(c *Case, body string) *http.Response {
+	hdr := http.Header{}
+	if c.St.CT != "" {
+		hdr.Set("Content-Type", c.St.CT)
+	}
+	if c.St.Srv != "" {
+		hdr.Set("Server", c.St.Srv)
+	}
+	var rd io.Reader = strings.NewReader(body)
+	switch c.St.Rd {
+	case "dataerr":
+		rd = iotest.DataErrReader(rd)
+	case "half":
+		rd = iotest.HalfReader(rd)
+	case "onebyte":
+		rd = iotest.OneByteReader(rd)
+	}
+	resp := &http.Response{StatusCode: c.St.Status, Header: hdr, Body: io.NopCloser(rd), ContentLength: -1}
+	if c.St.CL {
+		resp.ContentLength = int64(len(body))
+		hdr.Set("Content-Length", fmt.Sprint(len(body)))
+	}
+	return resp
 }
 
 func raws(us []*models.URL) []string {
@@ -436,12 +461,12 @@ func execCase(input string, pipeline bool) Result {
 	}
 	cfg := fmt.Sprintf("(Cfg %s %s %s %s)", coqSList(c.Cfg.Dis), coqBool(c.Cfg.Alt), coqBool(c.Cfg.NoAssets), coqZ(int64(c.Cfg.MaxHops)))
 	st := fmt.Sprintf("(PState %s %s %s %s %s)", coqZ(int64(c.St.Status)), coqZ(int64(c.St.Depth)), coqBool(ex.mimeHTML), coqZ(int64(c.St.Hops)), coqBool(c.St.DC))
-	term := fmt.Sprintf("(HC %s %s %s %s %s %s [%s] %s %s %s %s %s %s %s %s %s %s %s %s)",
+	term := fmt.Sprintf("(HC %s %s %s %s %s %s [%s] %s %s %s %s %s %s %s %s %s %s %s %s %s %s)",
 		cfg, st, coqLoc(&c.Page), coqBool(htmlRepaired), coqBool(isHTML), coqBool(sweep),
 		coqNode(dom), coqBool(rb == "" && ex.err == "" && perr == ""), coqList(plants),
 		coqSList(ex.assets), coqSList(ex.outlinks), coqOptTab(restab),
 		coqSList(pa), coqSList(po), coqList(matchtab),
-		coqOptTab(normA), coqOptTab(normO), coqBool(pipeline), reached)
+		coqOptTab(normA), coqOptTab(normO), coqBool(pipeline), reached, coqS(c.St.CT), coqS(c.St.Srv))
 	term = wrapInterned(term)
 
 	// distribution tags
@@ -479,6 +504,39 @@ func execCase(input string, pipeline bool) Result {
 		tags = append(tags, "ctype-xml")
 	default:
 		tags = append(tags, "ctype-html")
+	}
+	srv := "srv-none"
+	s3 := false
+	for _, n := range []string{"AmazonS3", "WasabiS3", "UploadServer", "Windows-Azure-Blob", "AliyunOSS"} {
+		if strings.Contains(c.St.Srv, n) {
+			s3 = true
+		}
+	}
+	switch {
+	case s3:
+		srv = "srv-s3like"
+		if strings.Contains(c.St.CT, "xml") {
+			tags = append(tags, "s3-xhtml")
+		}
+	case c.St.Srv != "":
+		srv = "srv-other"
+	}
+	rd := c.St.Rd
+	if rd == "" {
+		rd = "plain"
+	}
+	size := "body-upto2k"
+	switch n := len(body); {
+	case n > 65536:
+		size = "body-over64k"
+	case n > 6144:
+		size = "body-6k-64k"
+	case n > 2048:
+		size = "body-2k-6k"
+	}
+	tags = append(tags, srv, "rd-"+rd, size)
+	if c.St.CL {
+		tags = append(tags, "content-length")
 	}
 	if pipeline && len(c.Chain) > 0 && c.Chain[0].String() != c.Page.String() {
 		tags = append(tags, "seed-differs-from-page")
